@@ -4,6 +4,7 @@ import (
 	"fmt"
 	"go/token"
 	"go/types"
+	"regexp"
 	"sort"
 	"strings"
 
@@ -210,6 +211,56 @@ func runC17(c *Ctx) {
 		c.Check("C17.D1", "positive-example:build", false, 0, "built-in positive examples could not be built: "+err.Error())
 	}
 	c.Min("C17.D1", 2)
+
+	// ---- D2 randomness enters creation only where the caller supplied no key: every source of random bytes in the
+	// creation call tree (anything handed crypto/rand.Reader) runs only on the edge "the key option is absent" — not
+	// "absent or of another type", which would swap the caller's key for a random one
+	{
+		n, okR := 0, true
+		var detail []string
+		absent := regexp.MustCompile(`^\(.*\.Values\[("updatePublicKey"|"recoveryPublicKey")\] == nil\)=true$|^.*\.Values\[("updatePublicKey"|"recoveryPublicKey")\]#1=false$`)
+		for _, f := range fs {
+			forEachInstr(f, func(in ssa.Instruction) {
+				cl, ok := in.(*ssa.Call)
+				if !ok {
+					return
+				}
+				g := cl.Call.StaticCallee()
+				usesRand := false
+				for _, a := range cl.Call.Args {
+					if strings.Contains(c.Path(a, nil), "crypto/rand.Reader") {
+						usesRand = true
+					}
+				}
+				// key generation (signing draws its own nonce from the same reader: that is not a key)
+				if !usesRand || g == nil || !strings.Contains(g.Name(), "GenerateKey") {
+					return
+				}
+				n++
+				nAbs, key := 0, ""
+				conds := c.condsOf(cl.Block())
+				for _, cnd := range conds {
+					if m := absent.FindStringSubmatch(cnd); m != nil {
+						nAbs++
+						key = m[1] + m[2]
+					}
+				}
+				if nAbs != 1 {
+					okR = false
+					detail = append(detail, fmt.Sprintf("%s at %s: %d absence conditions in %v", short(f.String()), c.pos(cl.Pos()), nAbs, conds))
+					return
+				}
+				for _, cnd := range conds {
+					if !absent.MatchString(cnd) && strings.Contains(cnd, key) {
+						okR = false
+						detail = append(detail, short(f.String())+": also conditional on "+cnd)
+					}
+				}
+			})
+		}
+		c.Check("C17.D2", "random-keys-only-for-absent-options", okR && n >= 2, 0, fmt.Sprintf("%d uses of crypto/rand.Reader in the creation call tree, each under exactly the condition that its key option is absent %v", n, detail))
+	}
+	c.Min("C17.D2", 1)
 
 	// ---- G1 initial state / suffix / short form
 	pis := c.Fn(pParser, "parseInitialState")
